@@ -39,7 +39,7 @@ func (c *slowChild) Run(ctx context.Context) error {
 	case <-ctx.Done():
 	case <-c.stop:
 	}
-	time.Sleep(60 * time.Millisecond)
+	time.Sleep(400 * time.Millisecond)
 	return nil
 }
 func (c *slowChild) Stop() {
@@ -124,7 +124,7 @@ func startStop(r rs) *atomic.Bool {
 	return &ret
 }
 
-const grace = 40 * time.Millisecond
+const grace = 200 * time.Millisecond
 
 // after Stop returned, the targeted Run must have returned (grace: the Run goroutine needs a
 // moment to set its flag after the deferred done()).
